@@ -383,6 +383,91 @@ theorem xover_step (mac : MacFn) (net : Net) (now src dst : Nat) (cd2 : Bool)
     rw [this]
     exact incPath_mkCur _ _ [] h2 t2 after2 ht2
 
+/-- the AS where two segments meet (no peering), first segment in either direction: the last hop of the first segment (always
+    traversed against construction direction) and the first hop of the second are validated by the
+    same router, the packet leaves over the egress interface of the second -/
+theorem xover_step_gen (mac : MacFn) (net : Net) (now src dst : Nat) (cd1 cd2 : Bool)
+    (ts1 seg1 ts2 seg2 a i : Nat) (h1 h2 : Hop) (t2 : List Hop)
+    (before : List Seg) (done : List Hop) (after2 : List Seg) (fi f : Iface)
+    (hb : ∀ s ∈ before, s.hops.length ≠ 1) (ha : ∀ s ∈ after2, s.hops.length ≠ 1)
+    (hdone : done ≠ []) (ht2 : t2 ≠ [])
+    (hi0 : i ≠ 0) (hi : i = inSide cd1 h1) (hsrc : a ≠ src) (hdst : a ≠ dst)
+    (hmac1 : macOk mac (net a).key ⟨cd1, false, usedSeg cd1 seg1 h1, ts1⟩ h1 = true)
+    (hexp1 : expired now ts1 h1.exp = false) (hia1 : h1.inAlert = false) (hea1 : h1.egAlert = false)
+    (hmac2 : macOk mac (net a).key ⟨cd2, false, seg2, ts2⟩ h2 = true)
+    (hexp2 : expired now ts2 h2.exp = false) (hia2 : h2.inAlert = false) (hea2 : h2.egAlert = false)
+    (hfi : (net a).iface i = some fi)
+    (hf : (net a).iface (outSide cd2 h2) = some f) (ho0 : outSide cd2 h2 ≠ 0) (hup : f.up = true)
+    (hown : f.owner = 0) (hlt : ltXover fi.lt f.lt = true) :
+    routerStep mac (cfgOf net a) now (.ext i) (a == src) (a == dst)
+        ⟨before, ⟨cd1, false, seg1, ts1⟩, done, h1, [], ⟨⟨cd2, false, seg2, ts2⟩, h2 :: t2⟩ :: after2⟩ =
+      .forward (outSide cd2 h2)
+        (mkCur (before ++ [⟨⟨cd1, false, usedSeg cd1 seg1 h1, ts1⟩, done ++ [h1]⟩])
+          ⟨cd2, false, egSeg cd2 seg2 h2, ts2⟩ [h2] t2 after2) := by
+  have hsl : (a == src) = false := by simp [hsrc]
+  have hdl : (a == dst) = false := by simp [hdst]
+  rw [hsl, hdl]
+  have hing : ingUpd ⟨before, ⟨cd1, false, seg1, ts1⟩, done, h1, [],
+        ⟨⟨cd2, false, seg2, ts2⟩, h2 :: t2⟩ :: after2⟩ (.ext i) false =
+      ⟨before, ⟨cd1, false, usedSeg cd1 seg1 h1, ts1⟩, done, h1, [],
+        ⟨⟨cd2, false, seg2, ts2⟩, h2 :: t2⟩ :: after2⟩ := by
+    cases cd1 <;> simp [ingUpd, usedSeg, Arrival.ifid, hi0]
+  have hst : stIngress mac (cfgOf net a) now (.ext i) false false
+      ⟨before, ⟨cd1, false, seg1, ts1⟩, done, h1, [], ⟨⟨cd2, false, seg2, ts2⟩, h2 :: t2⟩ :: after2⟩ =
+      .ok ⟨ingUpd ⟨before, ⟨cd1, false, seg1, ts1⟩, done, h1, [],
+        ⟨⟨cd2, false, seg2, ts2⟩, h2 :: t2⟩ :: after2⟩ (.ext i) false, false⟩ := by
+    apply stIngress_pass
+    · have := hasSingleton_false before ⟨cd1, false, seg1, ts1⟩ done h1 []
+        (⟨⟨cd2, false, seg2, ts2⟩, h2 :: t2⟩ :: after2) hb
+        (by
+          intro s hs
+          simp only [List.mem_cons] at hs
+          rcases hs with rfl | hs
+          · cases t2 <;> simp_all
+          · exact ha s hs)
+        (by cases done <;> simp_all)
+      simp [this]
+    · simp [determinePeer]
+    · rw [hing]; exact hexp1
+    · intro _; rw [hing]; simp only [Arrival.ifid]; cases cd1 <;> simpa [inSide] using hi
+    · simp [Arrival.ifid, hi0]
+    · simp [Arrival.ifid, hi0]
+    · rw [hing]; simp [Arrival.ifid, hi0, Cursor.isLastHop]
+    · rw [hing]; exact hmac1
+    · rw [hing]; cases cd1 <;> simp [hia1, hea1]
+  rw [hing] at hst
+  have := routerStep_xover mac (cfgOf net a) now (.ext i) false
+    ⟨before, ⟨cd1, false, seg1, ts1⟩, done, h1, [], ⟨⟨cd2, false, seg2, ts2⟩, h2 :: t2⟩ :: after2⟩
+    ⟨before ++ [⟨⟨cd1, false, usedSeg cd1 seg1 h1, ts1⟩, done ++ [h1]⟩],
+      ⟨cd2, false, seg2, ts2⟩, [], h2, t2, after2⟩ f
+    (mkCur (before ++ [⟨⟨cd1, false, usedSeg cd1 seg1 h1, ts1⟩, done ++ [h1]⟩])
+          ⟨cd2, false, egSeg cd2 seg2 h2, ts2⟩ [h2] t2 after2)
+  rw [hing] at this
+  have heo : egressOf ⟨before ++ [⟨⟨cd1, false, usedSeg cd1 seg1 h1, ts1⟩, done ++ [h1]⟩],
+      ⟨cd2, false, seg2, ts2⟩, [], h2, t2, after2⟩ = outSide cd2 h2 := by
+    cases cd2 <;> rfl
+  rw [heo] at this
+  apply this hst
+  · simp [Cursor.isXover]
+  · simp [Cursor.incPath]
+  · exact hexp2
+  · exact hmac2
+  · simp only [egressIface]
+    have : (outSide cd2 h2 == 0) = false := by simp [ho0]
+    rw [this]; simp only [Bool.false_eq_true, if_false]; exact hf
+  · exact hown
+  · simpa [Arrival.ifid] using hi0
+  · simp only [ingressLT, Arrival.ifid, cfgOf_iface, hfi]; exact hlt
+  · cases cd2 <;> simp [hia2, hea2]
+  · exact hup
+  · have : egUpd ⟨before ++ [⟨⟨cd1, false, usedSeg cd1 seg1 h1, ts1⟩, done ++ [h1]⟩],
+          ⟨cd2, false, seg2, ts2⟩, [], h2, t2, after2⟩ false =
+        ⟨before ++ [⟨⟨cd1, false, usedSeg cd1 seg1 h1, ts1⟩, done ++ [h1]⟩],
+          ⟨cd2, false, egSeg cd2 seg2 h2, ts2⟩, [], h2, t2, after2⟩ := by
+      cases cd2 <;> simp [egUpd, egSeg]
+    rw [this]
+    exact incPath_mkCur _ _ [] h2 t2 after2 ht2
+
 /-- a transit AS finds the current hop field expired: SCMP "path expired" is requested and the
     packet handed to the slow path already carries the SegID as updated at ingress -/
 theorem expired_step (mac : MacFn) (net : Net) (now src dst : Nat) (cd : Bool) (ts seg a i : Nat)
@@ -402,5 +487,187 @@ theorem expired_step (mac : MacFn) (net : Net) (now src dst : Nat) (cd : Bool) (
     if_true, hing]
   unfold stChecks
   simp [hexp]
+
+/-! ### Peering hops -/
+
+/-- the peering AS of the up segment, packet from a neighbour: validated with the SegID as it is
+    (no update on a peering hop), sent over the peering link, pointers moved to the down segment -/
+theorem peer_out_ext (mac : MacFn) (net : Net) (now src dst : Nat) (ts seg a i : Nat) (h : Hop)
+    (done : List Hop) (i1 : Info) (h1 : Hop) (t1 : List Hop) (fi f : Iface)
+    (hi0 : i ≠ 0) (hi : i = h.cEg) (hsrc : a ≠ src) (hdst : a ≠ dst)
+    (hmac : macOk mac (net a).key ⟨false, true, seg, ts⟩ h = true)
+    (hexp : expired now ts h.exp = false) (hia : h.inAlert = false) (hea : h.egAlert = false)
+    (hfi : (net a).iface i = some fi)
+    (hf : (net a).iface h.cIn = some f) (ho0 : h.cIn ≠ 0) (hup : f.up = true) (hown : f.owner = 0)
+    (hlt : ltSame fi.lt f.lt = true) :
+    routerStep mac (cfgOf net a) now (.ext i) (a == src) (a == dst)
+        ⟨[], ⟨false, true, seg, ts⟩, done, h, [], [⟨i1, h1 :: t1⟩]⟩ =
+      .forward h.cIn ⟨[⟨⟨false, true, seg, ts⟩, done ++ [h]⟩], i1, [], h1, t1, []⟩ := by
+  have hsl : (a == src) = false := by simp [hsrc]
+  have hdl : (a == dst) = false := by simp [hdst]
+  rw [hsl, hdl]
+  have hdp : determinePeer ⟨[], ⟨false, true, seg, ts⟩, done, h, [], [⟨i1, h1 :: t1⟩]⟩ = some true := by
+    simp [determinePeer]
+  have hing : ingUpd ⟨[], ⟨false, true, seg, ts⟩, done, h, [], [⟨i1, h1 :: t1⟩]⟩ (.ext i) true =
+      ⟨[], ⟨false, true, seg, ts⟩, done, h, [], [⟨i1, h1 :: t1⟩]⟩ := by
+    simp [ingUpd]
+  have hst : stIngress mac (cfgOf net a) now (.ext i) false false
+      ⟨[], ⟨false, true, seg, ts⟩, done, h, [], [⟨i1, h1 :: t1⟩]⟩ =
+      .ok ⟨ingUpd ⟨[], ⟨false, true, seg, ts⟩, done, h, [], [⟨i1, h1 :: t1⟩]⟩ (.ext i) true, true⟩ := by
+    apply stIngress_pass
+    · simp
+    · exact hdp
+    · rw [hing]; exact hexp
+    · intro _; rw [hing]; simpa [Arrival.ifid] using hi
+    · simp [Arrival.ifid, hi0]
+    · simp [Arrival.ifid, hi0]
+    · rw [hing]; simp [Arrival.ifid, hi0, Cursor.isLastHop]
+    · rw [hing]; exact hmac
+    · rw [hing]; simp [hea]
+  have := routerStep_forward mac (cfgOf net a) now (.ext i) false
+    ⟨[], ⟨false, true, seg, ts⟩, done, h, [], [⟨i1, h1 :: t1⟩]⟩ true f
+    ⟨[⟨⟨false, true, seg, ts⟩, done ++ [h]⟩], i1, [], h1, t1, []⟩
+  rw [hing] at this hst
+  have heo : egressOf ⟨[], ⟨false, true, seg, ts⟩, done, h, [], [⟨i1, h1 :: t1⟩]⟩ = h.cIn := rfl
+  rw [heo] at this
+  apply this hst
+  · simp
+  · simp only [egressIface]
+    have : (h.cIn == 0) = false := by simp [ho0]
+    rw [this]; simp only [Bool.false_eq_true, if_false]; exact hf
+  · exact hown
+  · right; simp only [ingressLT, Arrival.ifid, cfgOf_iface, hfi]; exact hlt
+  · simp [hia]
+  · exact hup
+  · simp [egUpd, Cursor.incPath]
+
+/-- the same when the source AS itself is the peering AS: the packet comes from a host -/
+theorem peer_out_host (mac : MacFn) (net : Net) (now src dst : Nat) (ts seg : Nat) (h : Hop)
+    (i1 : Info) (h1 : Hop) (t1 : List Hop) (f : Iface) (hsd : src ≠ dst)
+    (hmac : macOk mac (net src).key ⟨false, true, seg, ts⟩ h = true)
+    (hexp : expired now ts h.exp = false) (hia : h.inAlert = false)
+    (hf : (net src).iface h.cIn = some f) (ho0 : h.cIn ≠ 0) (hup : f.up = true) (hown : f.owner = 0) :
+    routerStep mac (cfgOf net src) now .host (src == src) (src == dst)
+        ⟨[], ⟨false, true, seg, ts⟩, [], h, [], [⟨i1, h1 :: t1⟩]⟩ =
+      .forward h.cIn ⟨[⟨⟨false, true, seg, ts⟩, [h]⟩], i1, [], h1, t1, []⟩ := by
+  have hdl : (src == dst) = false := by simp [hsd]
+  rw [hdl]
+  simp only [beq_self_eq_true]
+  have hdp : determinePeer ⟨[], ⟨false, true, seg, ts⟩, [], h, [], [⟨i1, h1 :: t1⟩]⟩ = some true := by
+    simp [determinePeer]
+  have hing : ingUpd ⟨[], ⟨false, true, seg, ts⟩, [], h, [], [⟨i1, h1 :: t1⟩]⟩ .host true =
+      ⟨[], ⟨false, true, seg, ts⟩, [], h, [], [⟨i1, h1 :: t1⟩]⟩ := by
+    simp [ingUpd]
+  have hst : stIngress mac (cfgOf net src) now .host true false
+      ⟨[], ⟨false, true, seg, ts⟩, [], h, [], [⟨i1, h1 :: t1⟩]⟩ =
+      .ok ⟨ingUpd ⟨[], ⟨false, true, seg, ts⟩, [], h, [], [⟨i1, h1 :: t1⟩]⟩ .host true, true⟩ := by
+    apply stIngress_pass
+    · simp
+    · exact hdp
+    · rw [hing]; exact hexp
+    · intro h0; simp [Arrival.ifid] at h0
+    · rw [hing]; simp [Cursor.isFirstHop]
+    · simp [Arrival.ifid]
+    · simp [Arrival.ifid]
+    · rw [hing]; exact hmac
+    · simp [Arrival.ifid]
+  have := routerStep_forward mac (cfgOf net src) now .host true
+    ⟨[], ⟨false, true, seg, ts⟩, [], h, [], [⟨i1, h1 :: t1⟩]⟩ true f
+    ⟨[⟨⟨false, true, seg, ts⟩, [h]⟩], i1, [], h1, t1, []⟩
+  rw [hing] at this hst
+  have heo : egressOf ⟨[], ⟨false, true, seg, ts⟩, [], h, [], [⟨i1, h1 :: t1⟩]⟩ = h.cIn := rfl
+  rw [heo] at this
+  apply this hst
+  · simp
+  · simp only [egressIface]
+    have : (h.cIn == 0) = false := by simp [ho0]
+    rw [this]; simp only [Bool.false_eq_true, if_false]; exact hf
+  · exact hown
+  · left; rfl
+  · simp [hia]
+  · exact hup
+  · simp [egUpd, Cursor.incPath]
+
+/-- the peering AS of the down segment: the packet arrives over the peering link -/
+theorem peer_in_forward (mac : MacFn) (net : Net) (now src dst : Nat) (ts seg a i : Nat) (h : Hop)
+    (s0 : Seg) (t0 : Hop) (tl : List Hop) (fi f : Iface)
+    (hi0 : i ≠ 0) (hi : i = h.cIn) (hsrc : a ≠ src) (hdst : a ≠ dst)
+    (hmac : macOk mac (net a).key ⟨true, true, seg, ts⟩ h = true)
+    (hexp : expired now ts h.exp = false) (hia : h.inAlert = false) (hea : h.egAlert = false)
+    (hfi : (net a).iface i = some fi)
+    (hf : (net a).iface h.cEg = some f) (ho0 : h.cEg ≠ 0) (hup : f.up = true) (hown : f.owner = 0)
+    (hlt : ltSame fi.lt f.lt = true) :
+    routerStep mac (cfgOf net a) now (.ext i) (a == src) (a == dst)
+        ⟨[s0], ⟨true, true, seg, ts⟩, [], h, t0 :: tl, []⟩ =
+      .forward h.cEg ⟨[s0], ⟨true, true, seg, ts⟩, [h], t0, tl, []⟩ := by
+  have hsl : (a == src) = false := by simp [hsrc]
+  have hdl : (a == dst) = false := by simp [hdst]
+  rw [hsl, hdl]
+  have hdp : determinePeer ⟨[s0], ⟨true, true, seg, ts⟩, [], h, t0 :: tl, []⟩ = some true := by
+    simp [determinePeer]
+  have hing : ingUpd ⟨[s0], ⟨true, true, seg, ts⟩, [], h, t0 :: tl, []⟩ (.ext i) true =
+      ⟨[s0], ⟨true, true, seg, ts⟩, [], h, t0 :: tl, []⟩ := by
+    simp [ingUpd]
+  have hst : stIngress mac (cfgOf net a) now (.ext i) false false
+      ⟨[s0], ⟨true, true, seg, ts⟩, [], h, t0 :: tl, []⟩ =
+      .ok ⟨ingUpd ⟨[s0], ⟨true, true, seg, ts⟩, [], h, t0 :: tl, []⟩ (.ext i) true, true⟩ := by
+    apply stIngress_pass
+    · simp
+    · exact hdp
+    · rw [hing]; exact hexp
+    · intro _; rw [hing]; simpa [Arrival.ifid] using hi
+    · simp [Arrival.ifid, hi0]
+    · simp [Arrival.ifid, hi0]
+    · rw [hing]; simp [Arrival.ifid, hi0, Cursor.isLastHop]
+    · rw [hing]; exact hmac
+    · rw [hing]; simp [hia]
+  have := routerStep_forward mac (cfgOf net a) now (.ext i) false
+    ⟨[s0], ⟨true, true, seg, ts⟩, [], h, t0 :: tl, []⟩ true f
+    ⟨[s0], ⟨true, true, seg, ts⟩, [h], t0, tl, []⟩
+  rw [hing] at this hst
+  have heo : egressOf ⟨[s0], ⟨true, true, seg, ts⟩, [], h, t0 :: tl, []⟩ = h.cEg := rfl
+  rw [heo] at this
+  apply this hst
+  · simp [Cursor.isXover]
+  · simp only [egressIface]
+    have : (h.cEg == 0) = false := by simp [ho0]
+    rw [this]; simp only [Bool.false_eq_true, if_false]; exact hf
+  · exact hown
+  · right; simp only [ingressLT, Arrival.ifid, cfgOf_iface, hfi]; exact hlt
+  · simp [hea]
+  · exact hup
+  · simp [egUpd, Cursor.incPath]
+
+/-- … which is also the destination AS -/
+theorem peer_in_deliver (mac : MacFn) (net : Net) (now src dst : Nat) (ts seg i : Nat) (h : Hop)
+    (s0 : Seg) (hsd : src ≠ dst) (hi0 : i ≠ 0) (hi : i = h.cIn)
+    (hmac : macOk mac (net dst).key ⟨true, true, seg, ts⟩ h = true)
+    (hexp : expired now ts h.exp = false) (hia : h.inAlert = false) :
+    routerStep mac (cfgOf net dst) now (.ext i) (dst == src) (dst == dst)
+        ⟨[s0], ⟨true, true, seg, ts⟩, [], h, [], []⟩ =
+      .deliver ⟨[s0], ⟨true, true, seg, ts⟩, [], h, [], []⟩ := by
+  have hsl : (dst == src) = false := by simp [Ne.symm hsd]
+  rw [hsl]
+  simp only [beq_self_eq_true]
+  have hing : ingUpd ⟨[s0], ⟨true, true, seg, ts⟩, [], h, [], []⟩ (.ext i) true =
+      ⟨[s0], ⟨true, true, seg, ts⟩, [], h, [], []⟩ := by
+    simp [ingUpd]
+  have hst : stIngress mac (cfgOf net dst) now (.ext i) false true
+      ⟨[s0], ⟨true, true, seg, ts⟩, [], h, [], []⟩ =
+      .ok ⟨ingUpd ⟨[s0], ⟨true, true, seg, ts⟩, [], h, [], []⟩ (.ext i) true, true⟩ := by
+    apply stIngress_pass
+    · simp
+    · simp [determinePeer]
+    · rw [hing]; exact hexp
+    · intro _; rw [hing]; simpa [Arrival.ifid] using hi
+    · simp [Arrival.ifid, hi0]
+    · simp [Arrival.ifid, hi0]
+    · rw [hing]; simp [Arrival.ifid, hi0, Cursor.isLastHop]
+    · rw [hing]; exact hmac
+    · rw [hing]; simp [hia]
+  have := routerStep_deliver mac (cfgOf net dst) now (.ext i) false
+    ⟨[s0], ⟨true, true, seg, ts⟩, [], h, [], []⟩ true hst
+  rw [hing] at this
+  exact this
 
 end Scion.Net
